@@ -45,6 +45,12 @@ def main(argv):
             retired = json.load(open(f"{ROOT}/seeded/{s}/meta.json")).get("status") == "retired"
         except Exception:
             pass
+        try:
+            if json.load(open(f"{ROOT}/seeded/{s}/meta.json")).get("status") == "superseded":
+                print(f"{s}: SUPERSEDED (a later fix made the change harmless for its own property; own check rc={own[0] if own else '-'}; not replayed, see meta.json)")
+                continue
+        except Exception:
+            pass
         if retired:
             st = "SILENT (retired seed: property holds at HEAD)" if (own and own[0] == 0) else f"FALSE-ALARM on retired seed rc={own[0] if own else '-'}"
             print(f"{s}: {st}")
